@@ -68,7 +68,10 @@ func allTexts(alpha []string, maxLen int) []string {
 
 func nullableBase() []string {
 	return []string{"line start", "line end", "word start", "not word end", "file end", "not file start",
-		"maybe 'a'", "at least 0 'b'", "maybe 'ab' fewest", "at least 0 not 'a'", "not in 'a'", "'a'", "any", "whole line"}
+		"maybe 'a'", "at least 0 'b'", "maybe 'ab' fewest", "at least 0 not 'a'", "not in 'a'", "'a'", "any", "whole line",
+		// every remaining class/anchor of the language, plain and negated: the ones that loop inside ONE instruction
+		// (whole word / whole line / whole file) can spin without the step hook ever ticking
+		"whole word", "whole file", "not whole word", "not whole line", "word end", "file start", "not line end"}
 }
 
 func wrapAll(xs []string, ys []string, r *rand.Rand, limit int) []string {
